@@ -546,7 +546,10 @@ pub enum Case {
     /// a generated datum as inline datum of output `out` of corpus transaction (src, idx) and appended to its witness
     /// datums; the validity flag of the rebuilt transaction is `valid`
     /// `value`: replace the output's value by (coin, [(policy byte, asset name byte, quantity)]) — quantities over the whole u64 range
-    InOutput { src: String, idx: Option<u16>, out: u16, valid: bool, datum: Gpd, #[serde(default)] value: Option<(u64, Vec<(u8, u8, u64)>)> },
+    InOutput { src: String, idx: Option<u16>, out: u16, valid: bool, datum: Gpd, #[serde(default)] value: Option<(u64, Vec<(u8, u8, u64)>)>,
+        /// write the output in the legacy `[address, value]` layout with this kind of address bytes (0 as they were, 1 pointer
+        /// address with an over-long variable-length integer, 2 surplus trailing bytes, 3 bytes that are no address)
+        #[serde(default)] legacy_addr: Option<u8> },
 }
 
 fn both_txs(tx: &MultiEraTx, view: &TxView, src: &[u8], obs: &mut Obs, ab: &mut Absorb) -> Result<(), Fail> {
@@ -633,7 +636,7 @@ fn check_inner(c: &Case, obs: &mut Obs, ab: &mut Absorb) -> Result<(), Fail> {
             let b = beta::Mapper::new(NoLedger).map_plutus_datum(&pd);
             cmp_pd(&model, &beta::mpd(&b), "datum", obs, ab)
         }
-        Case::InOutput { src, idx, out, valid, datum, value: value_edit } => {
+        Case::InOutput { src, idx, out, valid, datum, value: value_edit, legacy_addr } => {
             // rebuild the transaction with the datum inline in one output and among the witness datums
             let base = crate::c31::Case {
                 src: src.clone(), idx: *idx, flag: Some(*valid), dup_inputs: vec![], sibling_inputs: vec![], dup_collateral: vec![],
@@ -689,11 +692,33 @@ fn check_inner(c: &Case, obs: &mut Obs, ab: &mut Absorb) -> Result<(), Fail> {
                         ])
                     }
                 };
-                *o = cborx::map(vec![
-                    (cborx::uint(0), addr),
-                    (cborx::uint(1), value),
-                    (cborx::uint(2), cborx::array(vec![cborx::uint(1), cborx::tag(24, cborx::bytes(&dbytes))])),
-                ]);
+                if let Some(kind) = legacy_addr {
+                    let orig = addr.as_bytes().unwrap_or_default();
+                    let odd: Vec<u8> = match kind % 4 {
+                        0 => orig,
+                        1 => {
+                            // pointer address (type 4) whose first variable-length integer carries a leading zero group
+                            let mut a = vec![0x41];
+                            a.extend([0x42u8; 28]);
+                            a.extend([0x80, 0x05, 0x02, 0x03]);
+                            a
+                        }
+                        2 => {
+                            let mut a = orig;
+                            a.extend([0xde, 0xad]);
+                            a
+                        }
+                        _ => vec![0xff, 0x00, 0x01],
+                    };
+                    obs.class(format!("in-output:legacy-layout:address-kind-{}", kind % 4));
+                    *o = cborx::array(vec![cborx::bytes(&odd), value]);
+                } else {
+                    *o = cborx::map(vec![
+                        (cborx::uint(0), addr),
+                        (cborx::uint(1), value),
+                        (cborx::uint(2), cborx::array(vec![cborx::uint(1), cborx::tag(24, cborx::bytes(&dbytes))])),
+                    ]);
+                }
                 // witness datums: append
                 let wits = &mut rest[0];
                 match wits.map_get_mut(4) {
@@ -756,9 +781,9 @@ pub fn run(s: &Session) {
         let src = src.clone();
         let q = || prop_oneof![Just(1u64), Just(i32::MAX as u64), Just(u32::MAX as u64), Just(1u64 << 32), Just(i64::MAX as u64), Just(1u64 << 63), Just((1u64 << 63) + 1), Just(u64::MAX), any::<u64>()];
         let value = proptest::option::weighted(0.5, (q(), proptest::collection::vec((0u8..3, 0u8..4, q()), 0..4)));
-        (any::<u16>(), any::<u16>(), prop_oneof![2 => Just(true), 1 => Just(false)], gpd(), value).prop_map(move |(sel, out, valid, datum, value)| {
+        (any::<u16>(), any::<u16>(), prop_oneof![2 => Just(true), 1 => Just(false)], gpd(), value, proptest::option::weighted(0.3, 0u8..4)).prop_map(move |(sel, out, valid, datum, value, legacy_addr)| {
             let (name, idx) = &src[pvkit::pick_idx(sel, src.len())];
-            Case::InOutput { src: name.clone(), idx: *idx, out, valid, datum, value }
+            Case::InOutput { src: name.clone(), idx: *idx, out, valid, datum, value, legacy_addr }
         })
     }, |c, o| check(s, c, o));
     for c in ["int:cbor-int-in-i64", "int:cbor-int-outside-i64", "int:bignum-in-i64", "int:bignum-outside-i64", "datum:inline",
